@@ -219,6 +219,9 @@ func (i *input) lex() {
 					Text:      content.String(),
 				})
 			}
+			// The string (including its closing quote) has been consumed;
+			// the next rune starts a new lexeme and must not be skipped.
+			continue
 		default:
 			startLine := i.pos.line
 			var comment bytes.Buffer
@@ -250,6 +253,9 @@ func (i *input) lex() {
 					EndLine:   i.pos.line,
 					Text:      comment.String(),
 				})
+				// The end delimiter has been consumed; the next rune
+				// starts a new lexeme and must not be skipped.
+				continue
 			} else if i.singleLineComment() { // Single line comment
 				for {
 					if i.eof() {
